@@ -13,7 +13,7 @@ timeout 1800 bash -c "$CMD" > SEED/demo.changed.out 2>&1; R1=$?
 echo "seed$ROUND $ID: demo(original) exit=$R0, tests PASSED lines=$PASSED (expect 106), demo(changed) exit=$R1"
 if [ $R0 -eq 0 ] && [ $PASSED -eq 106 ] && [ $R1 -ne 0 ]; then
   mkdir -p /verif/seeded/${ID}${SUF}; cp SEED/patch.diff SEED/README.md /verif/seeded/${ID}${SUF}/
-  for f in SEED/*.cpp SEED/*.sh SEED/*.c SEED/*.h SEED/*.hpp SEED/*.S; do [ -f $f ] && cp $f /verif/seeded/${ID}${SUF}/; done
+  for f in SEED/*.cpp SEED/*.sh SEED/*.c SEED/*.h SEED/*.hpp SEED/*.S SEED/*.py; do [ -f $f ] && cp $f /verif/seeded/${ID}${SUF}/; done
   echo CONFIRMED; exit 0
 fi
 echo NOT-CONFIRMED; tail -3 SEED/demo.orig.out SEED/demo.changed.out; exit 1
